@@ -1,8 +1,15 @@
 """C13 - axis operators (MoveAxis, Ravel, Reshape and the lazy reshape transpose) are exact relabellings.
 
 Cases are JSON descriptions; `run_impl` builds the REAL furax operators from them, `model_term` the
-corresponding term of Model/Axes.v; the oracle compares the implementation with numpy.moveaxis /
-numpy.reshape / an explicit flattening, never with the model.
+corresponding term of Model/Axes.v (+ Model/AxesObs.v); the oracle compares the implementation with
+numpy.moveaxis / numpy.reshape / an explicit flattening, never with the model.
+
+Every case that calls reduce() on a composition of axis operators (op.T @ op and op @ op.T of every non-lite
+operator case, move-axis pairs, ravel / reshape next to a transposed ravel / reshape - same object,
+equal-but-distinct objects, different operators sharing one side, both orders -, mixed pairs, chains)
+observes what the reduced operator DOES (`red_obs`: class, in / out structures, values on the arange input)
+next to the unreduced composition, and `judge_red` compares the two with each other and with the NumPy
+relabellings applied one after the other.
 """
 from __future__ import annotations
 
@@ -104,12 +111,55 @@ def name_of(op):
     return NAMES.get(type(op).__name__, type(op).__name__)
 
 
+def red_obs(mk):
+    """Mirror of AxesObs.obs_red on the real operators; mk() builds the composition c (it may raise):
+    {'red': [class of c.reduce(), c.in_structure(), c.out_structure(), c(x), the same three of c.reduce()],
+     'same': implementation-only: does c.reduce() have the very in / out structure objects (pytree definition,
+     shapes, dtypes) of c}, with x the arange-valued input of c."""
+    c = attempt(mk)
+    if c[0] == 'err':
+        return {'error': c[1]}
+    c = c[1]
+    ins = attempt(lambda: shapes_of(c.in_structure()))
+    if ins[0] == 'err':
+        return {'error': ins[1]}
+    x = arange_tree(ins[1])
+    r = attempt(lambda: c.reduce())
+    same = None
+    if r[0] == 'ok':
+        same = [
+            show(attempt(lambda: bool(r[1].in_structure() == c.in_structure()))),
+            show(attempt(lambda: bool(r[1].out_structure() == c.out_structure()))),
+        ]
+    return {
+        'red': [
+            show(r, name_of),
+            ins[1],
+            show(attempt(lambda: shapes_of(c.out_structure()))),
+            show(attempt(lambda: datas_of(c(x)))),
+            show(attempt(lambda: shapes_of(unwrap(r).in_structure()))),
+            show(attempt(lambda: shapes_of(unwrap(r).out_structure()))),
+            show(attempt(lambda: datas_of(unwrap(r)(x)))),
+        ],
+        'same': same,
+    }
+
+
+def strip_same(o):
+    """The observation without the implementation-only components (not modelled)."""
+    if isinstance(o, dict):
+        return {k: strip_same(v) for k, v in o.items() if k != 'same'}
+    if isinstance(o, list):
+        return [strip_same(v) for v in o]
+    return o
+
+
 LITE_KEEP = (0, 1, 3, 6)
 
 
 def obs_op(op, ins, lite=False):
     """Mirror of Axes.obs_op on the real operator: [out_structure, op(x), structures of op.T, op.T(op(x)),
-    class of (op.T @ op).reduce(), class of (op @ op.T).reduce(), class of op.reduce(), op(op.T(y))].
+    red_obs of op.T @ op, red_obs of op @ op.T (AxesObs.red_pair), class of op.reduce(), op(op.T(y))].
     When out_structure() raises, nothing else is observed; `lite` keeps components 0, 1, 3, 6."""
     x = arange_tree(ins)
     out = attempt(lambda: shapes_of(op.out_structure()))
@@ -130,12 +180,10 @@ def obs_op(op, ins, lite=False):
         return datas_of(tt(yy))
 
     def red_to():
-        tt = unwrap(t)
-        return name_of((tt @ op).reduce())
+        return red_obs(lambda: unwrap(t) @ op)
 
     def red_ot():
-        tt = unwrap(t)
-        return name_of((op @ tt).reduce())
+        return red_obs(lambda: op @ unwrap(t))
 
     def roundtrip2():
         tt = unwrap(t)
@@ -154,7 +202,12 @@ def obs_op(op, ins, lite=False):
     ]
     res = [show(out), show(y, datas_of)]
     for i in range(2, 8):
-        res.append(None if (lite and i not in LITE_KEEP) else show(attempt(fs[i])))
+        if lite and i not in LITE_KEEP:
+            res.append(None)
+        elif i in (4, 5):
+            res.append(fs[i]())
+        else:
+            res.append(show(attempt(fs[i])))
     return res
 
 
@@ -229,6 +282,122 @@ def arange_data(ins):
     return [[list(s), list(range(prod(s)))] for s in ins]
 
 
+# operand specifications of the composition cases ('comp', 'chain'):
+#   {'op': 'move', 's': [..], 'd': [..], 'ins': shapes | None}
+#   {'op': 'ravel', 'first': f, 'last': l, 'ins': shapes | None, 'id': k, 'T': bool}
+#   {'op': 'reshape', 'shape': [..], 'ins': shapes | None, 'id': k, 'T': bool}
+# `ins` None: built on the out structure of the operand applied just before; 'T': the lazy transpose of the
+# object; two ravel / reshape specifications with the same 'id' are ONE Python object.
+
+
+def spec_move(s, d, ins=None):
+    return {'op': 'move', 's': list(s), 'd': list(d), 'ins': ins}
+
+
+def spec_rr(sp, ins, oid, T=False):
+    """sp = ('ravel', first, last) | ('reshape', target)."""
+    if sp[0] == 'ravel':
+        return {'op': 'ravel', 'first': sp[1], 'last': sp[2], 'ins': ins, 'id': oid, 'T': T}
+    return {'op': 'reshape', 'shape': list(sp[1]), 'ins': ins, 'id': oid, 'T': T}
+
+
+def spec_str(sp):
+    if sp['op'] == 'move':
+        return f'MoveAxis({sp["s"]}, {sp["d"]})' + (f' on {sp["ins"]}' if sp['ins'] is not None else '')
+    if sp['op'] == 'ravel':
+        t = f'Ravel#{sp["id"]}({sp["first"]}, {sp["last"]})'
+    else:
+        t = f'Reshape#{sp["id"]}({sp["shape"]})'
+    if sp['ins'] is not None:
+        t += f' on {sp["ins"]}'
+    return f'({t}).T' if sp.get('T') else t
+
+
+def ref_struct(sp, prev_out=None):
+    """NumPy / closed-form reference of an operand: (in shapes, out shapes), or None when the operand is not
+    legal for the reference (or has an empty axis: outside the property)."""
+    ins = sp['ins'] if sp['ins'] is not None else prev_out
+    if ins is None or any(0 in sh for sh in ins):
+        return None
+    ins = [list(sh) for sh in ins]
+    if sp['op'] == 'move':
+        outs = [np_moveaxis(sh, tuple(sp['s']), tuple(sp['d'])) for sh in ins]
+        if any(o is None for o in outs):
+            return None
+        return ins, [o[0] for o in outs]
+    if sp['op'] == 'ravel':
+        outs = [flatten_between(sh, sp['first'], sp['last']) for sh in ins]
+        if any(o is None or o == 'reject' for o in outs):
+            return None
+    else:
+        outs = [np_reshape(sh, sp['shape']) for sh in ins]
+        if any(o is None for o in outs):
+            return None
+        outs = [o[0] for o in outs]
+    return (outs, ins) if sp.get('T') else (ins, outs)
+
+
+def ref_chain(ops):
+    """Reference of on @ ... @ o1 (ops in application order) on the arange input: {'ins': shapes, 'out':
+    [[shape, data]]}; None when an operand is not legal; 'mismatch' when two neighbours do not compose."""
+    np = fx()[2]
+    prev = None
+    structs = []
+    for sp in ops:
+        st = ref_struct(sp, prev)
+        if st is None:
+            return None
+        if prev is not None and st[0] != prev:
+            return 'mismatch'
+        structs.append(st)
+        prev = st[1]
+    x = [np.arange(prod(sh)).reshape(tuple(sh)) for sh in structs[0][0]]
+    for sp, st in zip(ops, structs):  # one relabelling after the other
+        if sp['op'] == 'move':
+            x = [np.moveaxis(a, tuple(sp['s']), tuple(sp['d'])) for a in x]
+        else:
+            x = [np.reshape(a, tuple(sh)) for a, sh in zip(x, st[1])]
+        assert [list(a.shape) for a in x] == st[1]
+    return {'ins': structs[0][0], 'out': [[list(a.shape), [int(v) for v in a.ravel().tolist()]] for a in x]}
+
+
+def build_chain(ops, assoc='l'):
+    """The real operators of `ops` (application order) and their composition on @ ... @ o1."""
+    axes = fx()[3]
+    objs = {}
+    built = []
+    for sp in ops:
+        # evaluation order of AxesObs.obs_comp: the previous operand's out_structure() is taken first
+        prev_out = built[-1].out_structure() if built else None
+        st = structure(sp['ins']) if sp['ins'] is not None else prev_out
+        if sp['op'] == 'move':
+            op = axes.MoveAxisOperator(tuple(sp['s']), tuple(sp['d']), in_structure=st)
+        else:
+            key = sp['id']
+            ident = {k: v for k, v in sp.items() if k != 'T'}
+            if key in objs:
+                assert objs[key][0] == ident, 'one id, two specifications'
+                op = objs[key][1]
+            else:
+                if sp['op'] == 'ravel':
+                    op = axes.RavelOperator(sp['first'], sp['last'], in_structure=st)
+                else:
+                    op = axes.ReshapeOperator(tuple(sp['shape']), in_structure=st)
+                objs[key] = (ident, op)
+            if sp.get('T'):
+                op = op.T
+        built.append(op)
+    if assoc == 'l':  # ((on @ on-1) @ ...) @ o1
+        c = built[-1]
+        for op in reversed(built[:-1]):
+            c = c @ op
+    else:  # on @ (... @ (o2 @ o1))
+        c = built[0]
+        for op in built[1:]:
+            c = op @ c
+    return c
+
+
 # ----------------------------------------------------------------------------------------------
 # case generators
 
@@ -275,12 +444,13 @@ def factorizations(n, length):
 class Check(PropertyCheck):
     id = 'C13'
     props = ['C13.v']
-    static_targets = ['theories/Lemmas/AxesL.vo']
+    static_targets = ['theories/Lemmas/AxesL.vo', 'theories/Model/AxesObs.vo']
     coq_header = (
-        'From Coq Require Import ZArith NArith List.\nFrom Furax Require Import Model.Axes.\n'
+        'From Coq Require Import ZArith NArith List.\nFrom Furax Require Import Model.Axes Model.AxesObs.\n'
         'Import ListNotations.\nOpen Scope Z_scope.'
     )
     shard = 400
+    workers = 6  # the real code runs in 6 processes (cases() is deterministic in (tier, seed))
     trusted = [
         'jnp.moveaxis (canonicalize_axis, order construction, lax.transpose permutation check and element map), '
         'Array.reshape (_compute_newshape, lax.reshape: row-major data kept) as specified in Model/Axes.v; '
@@ -293,6 +463,10 @@ class Check(PropertyCheck):
         "Python `is` modelled by harness-assigned object identifiers (ReshapeInverseRule)",
         'CompositionOperator.reduce / AlgebraicReductionRule restricted to two operands of the classes of axes.py '
         '(no other registered binary rule matches these classes)',
+        'chains of 3-5 axis operators (kind chain) are outside the two-operand model: judged only by the '
+        'implementation-side oracle (reduce() vs the unreduced composition vs NumPy relabellings applied one after the other)',
+        'the pytree definition / dtype equality of the structures of c.reduce() and c is an implementation-only '
+        'observation (the model sees lists of leaf shapes)',
         'correspondence harness harness/c13.py',
     ]
 
@@ -378,7 +552,11 @@ class Check(PropertyCheck):
                     for d in itertools.product(vals, repeat=n):
                         if keep(1.0 if n == 1 else 0.04, 1.0 if n == 1 else 0.3):
                             move(list(s), list(d), ins)
-        # (f) pairs of move-axis operators: the inverse rule must fire only on inverse pairs
+        # (f) pairs of move-axis operators: the inverse rule must fire only on inverse pairs, and what
+        #     (left @ right).reduce() does is compared with the unreduced composition (oracle `judge_red`)
+        def movepair(s1, d1, s2, d2, ins):
+            cases.append({'kind': 'comp', 'cls': 'movepair', 'l': spec_move(s2, d2), 'r': spec_move(s1, d1, ins), 'ins': ins})
+
         for r in range(1, R + 1):
             sh = REP[r]
             vals = list(range(-r, r))
@@ -387,14 +565,25 @@ class Check(PropertyCheck):
                 for (s2, d2) in singles:
                     near = s2 == d1 or d2 == s1
                     if keep(1.0 if r == 1 else (0.5 if near else 0.1) if r == 2 else (0.2 if near else 0.02)):
-                        cases.append({'kind': 'movepair', 's1': s1, 'd1': d1, 's2': s2, 'd2': d2, 'ins': [sh]})
+                        movepair(s1, d1, s2, d2, [sh])
             if r >= 2:
                 lt = legal_tuples(r, 2, False)
                 for s1 in lt:
                     for d1 in lt:
                         if keep(1.0 if r == 2 else 0.34):
                             for s2, d2 in ((d1, s1), (d1, d1), (s1, s1), (d1[::-1], s1), (d1, s1[::-1])):
-                                cases.append({'kind': 'movepair', 's1': s1, 'd1': d1, 's2': s2, 'd2': d2, 'ins': [sh]})
+                                movepair(s1, d1, s2, d2, [sh])
+        # pytrees with several leaves: inverse pairs, the same move twice, sign-form near misses, crossed pairs
+        for ins in ([[2, 3], [3, 2, 2]], [[1, 2, 3], [3, 2]], [[2, 3], [3, 2], [2, 2, 3]]):
+            rmin = min(len(sh_) for sh_ in ins)
+            lt = [t for n in (1, 2) for t in legal_tuples(rmin, n, True)]
+            for s1 in lt:
+                for d1 in lt:
+                    if len(s1) == len(d1) and keep(0.12, 0.6):
+                        movepair(s1, d1, d1, s1, ins)
+                        movepair(s1, d1, s1, d1, ins)
+                        movepair(s1, d1, [v - rmin if v >= 0 else v + rmin for v in d1], s1, ins)
+                        movepair(s1, d1, d1[::-1], s1, ins)
 
         # -- ravel ----------------------------------------------------------------------------
         def ravel(first, last, ins, lite=False):
@@ -430,8 +619,6 @@ class Check(PropertyCheck):
                 for last in range(-3, 3):
                     if -len(sh) <= first < len(sh) and -len(sh) <= last < len(sh) or keep(0.3):
                         ravel(first, last, [sh], lite=True)
-        for ins, first, last in [([[2, 3]], 0, -1), ([[2, 3]], 0, 0), ([[2, 3, 2]], 1, 2), ([[2], [3]], 0, -1), ([[2, 2], [3]], 0, -1)]:
-            cases.append({'kind': 'distinct', 'op': 'ravel', 'first': first, 'last': last, 'ins': ins})
 
         # -- reshape --------------------------------------------------------------------------
         seen = set()
@@ -501,18 +688,139 @@ class Check(PropertyCheck):
         for ins in two_s:
             for t in ([-1], [6], [2, -1], [-1, 2], [2, 3], [3, -1], [-1, 3], [1, -1, 2], [2, -1, 1], [-1, 1], [4, -1], [-1, -1], [6, -1], [2, 2], [-2]):
                 add_reshape(t, ins, lite=False)
-        for ins, t in [([[2, 3]], [-1]), ([[2, 3]], [2, 3]), ([[2, 3]], [3, 2]), ([[2, 3]], [2, -1]), ([[2, 3], [2, 2]], [-1, 2]), ([[4], [2, 2]], [2, 2])]:
-            cases.append({'kind': 'distinct', 'op': 'reshape', 'shape': t, 'ins': ins})
-        # two different ravel / reshape objects: (b.T @ a) must not be reduced to the identity unless it is one
-        specs = [('reshape', [6]), ('reshape', [-1]), ('ravel', 0, -1), ('reshape', [3, 2]), ('reshape', [2, 3]),
-                 ('reshape', [1, 6]), ('ravel', 0, 0), ('reshape', [2, -1])]
-        leaves = [[2, 3], [3, 2], [6], [1, 6], [2, 3, 1]]
-        for sa in specs:
-            for sb in specs:
-                for ia in leaves:
-                    for ib in leaves:
-                        if keep(0.25) or (sa == sb and ia != ib and len(ia) == len(ib)):
-                            cases.append({'kind': 'rrpair', 'a': list(sa), 'b': list(sb), 'ia': [ia], 'ib': [ib], 'ins': [ia]})
+        # -- compositions of two ravel / reshape operators (one of them transposed) -------------------------
+        # For every in-structure of STRUCTS all specifications legal on it (SPECS): ravel over every axis range
+        # (two sign forms), reshape to every ordered factorisation (<= 3 factors, also with one -1) shared by
+        # the leaves.  Classes of pairs, each in BOTH orders (a @ b.T and b.T @ a):
+        #   same    one object with its own transpose                        (the rule must fire; identity)
+        #   equal   equal-but-distinct objects (the composite IS the identity, whatever reduce() decides)
+        #   in      DIFFERENT operators on one in-structure: a @ b.T is a re-chunking, b.T @ a composes only
+        #           when the out structures agree too
+        #   out     DIFFERENT operators (different in-structures) with one out-structure: b.T @ a
+        #   bad     structures that do not compose (ValueError), sampled
+        # and every pair is judged by `judge_red` (reduced vs unreduced vs NumPy).
+        def rr_specs(ins):
+            rmin = min(len(sh_) for sh_ in ins)
+            out = []
+            for f in range(rmin):
+                for l in range(f, rmin):
+                    out.append(('ravel', f, l))
+            out += [('ravel', 0, -1), ('ravel', -1, -1)]
+            if rmin >= 2:
+                out += [('ravel', -2, -1), ('ravel', 1, -1)]
+            sizes = [prod(sh_) for sh_ in ins]
+            targets = [[-1]]
+            if len(set(sizes)) == 1:
+                targets += factorizations(sizes[0], 1) + factorizations(sizes[0], 2)
+                targets += [f for f in factorizations(sizes[0], 3) if 1 not in f or f[1] == sizes[0]][:5]
+            for k_ in (1, 2, 3, 4):
+                if all(v % k_ == 0 for v in sizes):
+                    targets += [[k_, -1], [-1, k_]]
+                    if k_ == 2:
+                        targets += [[1, k_, -1]]
+            seen_t = []
+            for t in targets:
+                if t not in seen_t:
+                    seen_t.append(t)
+                    out.append(('reshape', t))
+            return [sp for sp in out if ref_struct(spec_rr(sp, ins, 1)) is not None]
+
+        def comp(l, r, cls):
+            cases.append({'kind': 'comp', 'cls': cls, 'l': l, 'r': r, 'ins': r['ins']})
+
+        core = [[[2, 3]], [[6]], [[2, 3, 2]], [[2, 3], [3, 2]], [[2, 3, 2], [4, 3]], [[2, 2], [3]]]
+        more = [[[3, 2]], [[1, 6]], [[2, 3, 1]], [[4, 3]], [[12]], [[2, 2, 3]], [[2, 3], [2, 2]], [[2, 3], [3, 2], [6]],
+                [[2, 3, 2], [2, 3, 2]], [[4], [2, 2]], [[2, 1, 3], [3, 2]]]
+        by_out: dict = {}
+        for ins in core + more:
+            specs = rr_specs(ins)
+            p_in = 0.2 if ins in core else 0.05
+            for sa in specs:
+                a1, a1t = spec_rr(sa, ins, 1), spec_rr(sa, ins, 1, T=True)
+                comp(a1t, a1, 'same')
+                comp(a1, a1t, 'same')
+                comp(spec_rr(sa, ins, 2, T=True), a1, 'equal')
+                comp(a1, spec_rr(sa, ins, 2, T=True), 'equal')
+                by_out.setdefault(str(ref_struct(a1)[1]), []).append((sa, ins))
+                for sb in specs:
+                    if sb != sa and keep(p_in, 1.0 if ins in core else 0.5):
+                        comp(a1, spec_rr(sb, ins, 2, T=True), 'in')   # a @ b.T: composes, not the identity
+                        comp(spec_rr(sb, ins, 2, T=True), a1, 'in')   # b.T @ a: composes iff the outs agree
+        for group in by_out.values():
+            for sa, ia in group:
+                for sb, ib in group:
+                    if ia != ib and keep(0.15, 0.6):
+                        comp(spec_rr(sb, ib, 2, T=True), spec_rr(sa, ia, 1), 'out')   # b.T @ a
+                        comp(spec_rr(sa, ia, 1), spec_rr(sb, ib, 2, T=True), 'bad')   # a @ b.T: in-structures differ
+        # the documented examples of the blind spot, always present
+        rv = lambda ins, oid, T=False: spec_rr(('ravel', 0, -1), ins, oid, T)
+        comp(rv([[2, 3]], 2, True), rv([[3, 2]], 1), 'out')
+        comp(spec_rr(('reshape', [3, 2]), [[2, 3]], 1), rv([[2, 3]], 2, True), 'in')
+        comp(spec_rr(('ravel', 0, 1), [[2, 3, 4], [4, 3, 2, 2]], 1), spec_rr(('ravel', 1, 2), [[2, 3, 4], [4, 3, 2, 2]], 2, True), 'in')
+        # mixed pairs (no rule applies): a move-axis operator next to a ravel / reshape or a transposed one
+        for ins in ([[2, 3, 2]], [[2, 3], [3, 2]]):
+            for sp in rr_specs(ins):
+                if not keep(0.25, 1.0):
+                    continue
+                a1 = spec_rr(sp, ins, 1)
+                comp(spec_move([0], [-1]), a1, 'mixed')                         # move @ a
+                comp(spec_move([0], [-1]), spec_rr(sp, ins, 1, T=True), 'mixed')  # move @ a.T
+                comp(spec_rr(sp, None, 1), spec_move([-1], [0], ins), 'mixed')  # a(built on the out structure) @ move
+                comp(spec_rr(sp, ins, 1, T=True), spec_move([0], [1], ins), 'mixed')  # a.T @ move (composes rarely)
+
+        # -- chains of 3-5 axis operators (implementation-side oracle only: the model has two operands) -------
+        # Each step is a legal operand on the current structure (reference `ref_struct`); half of the steps try
+        # to provoke a rule on the previous operand: its exact inverse (same object / inverse move), an
+        # equal-but-distinct object, or a DIFFERENT operator sharing one side (near miss).
+        def next_op(ops, cur, ids):
+            rmin = min(len(sh_) for sh_ in cur)
+            prev = ops[-1] if ops else None
+            kind = rng.choice(['move', 'rr', 'rr', 'T', 'inv', 'inv', 'inv'])
+            if kind == 'inv' and prev is not None:
+                if prev['op'] == 'move':
+                    s_, d_ = prev['s'], prev['d']
+                    return spec_move(*rng.choice([(d_, s_), (d_, s_), (s_, d_), (d_[::-1], s_)]))
+                pins = prev['ins']
+                psp = ('ravel', prev['first'], prev['last']) if prev['op'] == 'ravel' else ('reshape', prev['shape'])
+                how = rng.choice(['same', 'same', 'equal', 'other', 'other'])
+                if how == 'same':
+                    return dict(prev, T=not prev['T'])
+                if how == 'equal':
+                    return spec_rr(psp, pins, len(ids) + 1, T=not prev['T'])
+                if prev['T']:  # a different plain operator on the in-structure of the transposed one
+                    return spec_rr(rng.choice(rr_specs(pins)), pins, len(ids) + 1)
+                cands = by_out.get(str(cur), [])  # the transpose of a different operator with this out-structure
+                if cands:
+                    sp_, i_ = rng.choice(cands)
+                    return spec_rr(sp_, i_, len(ids) + 1, T=True)
+            if kind == 'T':
+                cands = by_out.get(str(cur), [])
+                if cands:
+                    sp_, i_ = rng.choice(cands)
+                    return spec_rr(sp_, i_, len(ids) + 1, T=True)
+            if kind == 'move' and rmin >= 1:
+                lt = legal_tuples(rmin, rng.randint(1, min(2, rmin)), True)
+                return spec_move(rng.choice(lt), rng.choice(lt))
+            return spec_rr(rng.choice(rr_specs(cur)), cur, len(ids) + 1)
+
+        starts = core + more
+        for _ in range(150 if quick else 1500):
+            cur = rng.choice(starts)
+            ops, ids = [], {}
+            for _i in range(rng.randint(3, 5)):
+                sp = next_op(ops, cur, ids)
+                if sp['ins'] is None and not ops:
+                    sp = dict(sp, ins=cur)
+                st = ref_struct(sp, cur)
+                if st is None or st[0] != cur:
+                    continue
+                if sp['op'] != 'move':
+                    ids.setdefault(sp['id'], sp['ins'])
+                ops.append(sp)
+                cur = st[1]
+            if len(ops) >= 3:
+                cases.append({'kind': 'chain', 'ops': ops, 'assoc': rng.choice(['l', 'r']), 'ins': ops[0]['ins']})
+
         # seeded random beyond the enumerated scope
         for _ in range(100 if quick else 2000):
             r = rng.randint(1, 5)
@@ -548,7 +856,13 @@ class Check(PropertyCheck):
             'ravel: ALL (first, last) in [-5,5]^2 x ALL shapes of rank <= 3 (4) over {1,2,3}, two-leaf pytrees, leaves with '
             'an empty axis. reshape: for every such shape ALL ordered factorisations of the size into <= 3 factors, each '
             'with one entry -1, two entries -1, wrong size, a zero or a -2 beside the -1, negative sizes, trailing 0; '
-            'two-leaf pytrees; same-object vs equal-but-distinct-object compositions; seeded random beyond. '
+            'two-leaf pytrees; seeded random beyond. '
+            'compositions (kind comp, compared with AxesObs.obs_comp; every one judged by reduced-vs-unreduced-vs-NumPy): '
+            'move-axis pairs (f) also on 2-3 leaf pytrees; for 17 in-structures (1-3 leaves) x ALL ravel ranges and '
+            'reshape factorisations legal on them: the same object with its transpose, equal-but-distinct objects, '
+            'DIFFERENT operators sharing the in-structure (a @ b.T, b.T @ a; all pairs on 6 core structures sampled at 0.2 in '
+            'quick, all in thorough), DIFFERENT operators sharing the out-structure (b.T @ a), non-composable pairs, '
+            'move-axis next to ravel / reshape / transposed; chains of 3-5 operators (seeded, implementation-side only). '
             'Non-trivial: the constructor accepted and out_structure() is defined and differs from in_structure, or an '
             'argument was rejected for a reason other than a malformed tuple length.'
         )
@@ -556,7 +870,7 @@ class Check(PropertyCheck):
     def distribution(self, cases):
         d: dict = {}
         for c in cases:
-            k = c['kind'] + '/rank' + ','.join(str(len(s)) for s in c['ins'])
+            k = c['kind'] + ('-' + c['cls'] if 'cls' in c else '') + '/rank' + ','.join(str(len(s)) for s in c['ins'])
             d[k] = d.get(k, 0) + 1
         return d
 
@@ -564,7 +878,7 @@ class Check(PropertyCheck):
         if not isinstance(obs, list):
             return isinstance(obs, dict) and 'error' in obs
         o = obs[3] if case['kind'] == 'move' else obs
-        if case['kind'] in ('movepair', 'distinct', 'rrpair'):
+        if case['kind'] in ('comp', 'chain'):
             return True
         return isinstance(o[0], list) and o[0] != case['ins'] or isinstance(o[0], dict)
 
@@ -576,9 +890,9 @@ class Check(PropertyCheck):
         k = case['kind']
         if k == 'move':
             return axes.MoveAxisOperator(axarg(case['s']), axarg(case['d']), in_structure=st)
-        if k == 'ravel' or (k == 'distinct' and case['op'] == 'ravel'):
+        if k == 'ravel':
             return axes.RavelOperator(case['first'], case['last'], in_structure=st)
-        if k == 'reshape' or (k == 'distinct' and case['op'] == 'reshape'):
+        if k == 'reshape':
             return axes.ReshapeOperator(tuple(case['shape']), in_structure=st)
         raise ValueError(k)
 
@@ -602,54 +916,15 @@ class Check(PropertyCheck):
 
                 tf = show(attempt(fields))
             return [list(op.source), list(op.destination), tf, o]
-        if k == 'movepair':
-            st = structure(ins)
-            r = axes.MoveAxisOperator(tuple(case['s1']), tuple(case['d1']), in_structure=st)
-            outs = attempt(lambda: r.out_structure())
-            if outs[0] == 'err':
-                return {'error': outs[1]}
-            l = axes.MoveAxisOperator(tuple(case['s2']), tuple(case['d2']), in_structure=outs[1])
-            return [
-                show(attempt(lambda: name_of((l @ r).reduce()))),
-                show(attempt(lambda: datas_of(l(r(arange_tree(ins)))))),
-                show(attempt(lambda: shapes_of(l.out_structure()))),
-            ]
         if k in ('ravel', 'reshape'):
             op = attempt(lambda: self.build(case))
             if op[0] == 'err':
                 return {'error': op[1]}
             return obs_op(op[1], ins, case.get('lite', False))
-        if k == 'rrpair':
-
-            def mk(spec, ins):
-                if spec[0] == 'ravel':
-                    return axes.RavelOperator(spec[1], spec[2], in_structure=structure(ins))
-                return axes.ReshapeOperator(tuple(spec[1]), in_structure=structure(ins))
-
-            a = attempt(lambda: mk(case['a'], case['ia']))
-            if a[0] == 'err':
-                return {'error': a[1]}
-            b = attempt(lambda: mk(case['b'], case['ib']))
-            if b[0] == 'err':
-                return {'error': b[1]}
-            a, b = a[1], b[1]
-            return [
-                show(attempt(lambda: name_of((b.T @ a).reduce()))),
-                show(attempt(lambda: datas_of(b.T(a(arange_tree(case['ia'])))))),
-            ]
-        if k == 'distinct':
-            a = attempt(lambda: self.build(case))
-            if a[0] == 'err':
-                return {'error': a[1]}
-            a = a[1]
-            b = self.build(case)
-            assert a is not b
-            return [
-                show(attempt(lambda: name_of((b.T @ a).reduce()))),
-                show(attempt(lambda: name_of((a @ b.T).reduce()))),
-                show(attempt(lambda: name_of((a.T @ a).reduce()))),
-                show(attempt(lambda: name_of((a @ a.T).reduce()))),
-            ]
+        if k == 'comp':
+            return red_obs(lambda: build_chain([case['r'], case['l']]))
+        if k == 'chain':
+            return red_obs(lambda: build_chain(case['ops'], case.get('assoc', 'l')))
         raise ValueError(k)
 
     # ------------------------------------------------------------------------------------------
@@ -660,26 +935,27 @@ class Check(PropertyCheck):
         k = case['kind']
         if k == 'move':
             arg = lambda a: f'(AInt {cz(a)})' if isinstance(a, int) else f'(ASeq {zl(a)})'
-            return f'obs_move {arg(case["s"])} {arg(case["d"])} {ins}'
-        if k == 'movepair':
-            return f'obs_move_pair {zl(case["s1"])} {zl(case["d1"])} {zl(case["s2"])} {zl(case["d2"])} {ins}'
+            return f'obs_move2 {arg(case["s"])} {arg(case["d"])} {ins}'
         if k == 'ravel':
-            return f'obs_ravel {cz(case["first"])} {cz(case["last"])} {ins}'
+            return f'obs_ravel2 {cz(case["first"])} {cz(case["last"])} {ins}'
         if k == 'reshape':
-            return f'obs_reshape {zl(case["shape"])} {ins}'
-        if k == 'rrpair':
+            return f'obs_reshape2 {zl(case["shape"])} {ins}'
+        if k == 'comp':
 
-            def mk(spec, i):
-                sh = clist(i, lambda s_: clist(s_, cn))
-                if spec[0] == 'ravel':
-                    return f'(mk_ravel {cz(spec[1])} {cz(spec[2])} {sh})'
-                return f'(mk_reshape {zl(spec[1])} {sh})'
+            def operand(sp, var):
+                i = var if sp['ins'] is None else clist(sp['ins'], lambda s_: clist(s_, cn))
+                if sp['op'] == 'move':
+                    return f'mk_move {zl(sp["s"])} {zl(sp["d"])} {i}'
+                if sp['op'] == 'ravel':
+                    mk = f'(mk_ravel {cz(sp["first"])} {cz(sp["last"])} {i})'
+                else:
+                    mk = f'(mk_reshape {zl(sp["shape"])} {i})'
+                return f'{"mk_T" if sp.get("T") else "mk_P"} {mk} {int(sp["id"])}%N'
 
-            return f'obs_rr_pair {mk(case["a"], case["ia"])} {mk(case["b"], case["ib"])}'
-        if k == 'distinct':
-            if case['op'] == 'ravel':
-                return f'obs_distinct (mk_ravel {cz(case["first"])} {cz(case["last"])} {ins})'
-            return f'obs_distinct (mk_reshape {zl(case["shape"])} {ins})'
+            assert case['r']['ins'] is not None
+            return f'obs_comp ({operand(case["r"], None)}) (fun ro => {operand(case["l"], "ro")})'
+        if k == 'chain':
+            return None  # more than two operands: implementation-side oracle only (see `trusted`)
         raise ValueError(k)
 
     def decode(self, case, v):
@@ -696,13 +972,26 @@ class Check(PropertyCheck):
 
         v = conv(v)
         lite = case.get('lite', False)
-        if case['kind'] == 'move' and isinstance(v, list):
+        wrap = lambda r: {'red': r} if isinstance(r, list) else r
+        if case['kind'] == 'comp':
+            return wrap(v)
+        # (the observation of Model/Axes.v, AxesObs.red_pair)
+        v, pair = v
+        if not isinstance(v, list):
+            return v
+        pair = [wrap(r) for r in pair] if isinstance(pair, list) else [pair, pair]
+        o = v[3] if case['kind'] == 'move' else v
+        o[4], o[5] = pair
+        if case['kind'] == 'move':
             v[3] = mask_model_obs(v[3], lite)
             if lite or isinstance(v[3][0], dict):
                 v[2] = None
-        elif case['kind'] in ('ravel', 'reshape') and isinstance(v, list):
+        else:
             v = mask_model_obs(v, lite)
         return v
+
+    def comparable(self, case, obs):
+        return strip_same(obs)
 
     # ------------------------------------------------------------------------------------------
     def oracle(self, case, obs):
@@ -710,27 +999,17 @@ class Check(PropertyCheck):
         ins = case['ins']
         if k == 'move':
             return self.oracle_move(case, obs)
-        if k == 'movepair':
-            if isinstance(obs, dict):
+        if k in ('comp', 'chain'):
+            ops = [case['r'], case['l']] if k == 'comp' else case['ops']
+            what = ' @ '.join(spec_str(sp) for sp in reversed(ops))
+            ref = ref_chain(ops)
+            if ref == 'mismatch':
+                ref = None
+            if isinstance(obs, dict) and 'error' in obs:
+                if ref is not None:
+                    return f'{what}: legal operands that compose were rejected with {obs}'
                 return None
-            name, data, louts = obs
-            if name == 0:
-                if data != arange_data(ins):
-                    return (
-                        f'(left @ right).reduce() is the IdentityOperator although left(right(x)) != x: '
-                        f'right=MoveAxis({case["s1"]},{case["d1"]}) left=MoveAxis({case["s2"]},{case["d2"]}) gives {data}'
-                    )
-            return None
-        if k == 'rrpair':
-            if isinstance(obs, dict):
-                return None
-            name, data = obs
-            if name == 0 and data != arange_data(case['ia']):
-                return (
-                    f'(b.T @ a).reduce() is the IdentityOperator although b.T(a(x)) = {data} is not x: '
-                    f'a={case["a"]} on {case["ia"]}, b={case["b"]} on {case["ib"]}'
-                )
-            return None
+            return self.judge_red(what, obs, ref)
         if k == 'ravel':
             return self.oracle_ravel(case, obs)
         if k == 'reshape':
@@ -752,9 +1031,54 @@ class Check(PropertyCheck):
             return f'{what}: T(op(x)) = {rt} is not x'
         if rt2 is not None and rt2 != arange_data(exp_shapes):
             return f'{what}: op(T(y)) = {rt2} is not y'
-        for nm, lab in ((red_to, 'op.T @ op'), (red_ot, 'op @ op.T')):
-            if isinstance(nm, dict):
-                return f'{what}: ({lab}).reduce() raised {nm}'
+        for ro, lab, st in ((red_to, 'op.T @ op', ins), (red_ot, 'op @ op.T', exp_shapes)):
+            if ro is None:
+                continue
+            if 'error' in ro:
+                return f'{what}: {lab} raised {ro}'
+            msg = self.judge_red(f'{what}: {lab}', ro, {'ins': st, 'out': arange_data(st)})
+            if msg:
+                return msg
+        return None
+
+    def reds_only(self, what, o):
+        if not isinstance(o, list):
+            return None
+        for ro, lab in ((o[4], 'op.T @ op'), (o[5], 'op @ op.T')):
+            msg = self.judge_red(f'{what}: {lab}', ro)
+            if msg:
+                return msg
+        return None
+
+    def judge_red(self, what, ro, ref=None):
+        """The oracle of every case that calls reduce() on a composition c: (1) the unreduced c has the
+        structures and the values of the reference `ref` (the relabellings applied one after the other with
+        NumPy) when there is one; (2) whenever c is defined on its arange input, c.reduce() is defined, has the
+        in / out structures of c and returns the values of c - so a wrong cancellation (or a wrong merge)
+        is reported with the concrete operands."""
+        if ro is None or 'red' not in ro:
+            return None
+        cls, cin, cout, cy, rin, rout, ry = ro['red']
+        if ref is not None:
+            ref_out = [e[0] for e in ref['out']]
+            if cin != ref['ins'] or cout != ref_out:
+                return f'{what}: the composition has structures {cin} -> {cout}, reference {ref["ins"]} -> {ref_out}'
+            if cy != ref['out']:
+                return f'{what}: the composition gives {cy} on the arange input, reference {ref["out"]}'
+        if isinstance(cout, dict) or isinstance(cy, dict):
+            return None  # the unreduced composition is itself undefined (illegal operand): outside the property
+        if isinstance(cls, dict):
+            return f'{what}: reduce() raised {cls} although the composition is defined'
+        if rin != cin or rout != cout:
+            return (
+                f'{what}: reduce() gives class {cls} with structures {rin} -> {rout}, '
+                f'the unreduced composition has {cin} -> {cout}'
+            )
+        if ry != cy:
+            return f'{what}: reduce() gives class {cls} returning {ry} on the arange input, the unreduced composition returns {cy}'
+        same = ro.get('same')
+        if same is not None and same != [True, True]:
+            return f'{what}: reduce() changed the in / out structure objects (pytree definition or dtype): equal = {same}'
         return None
 
     def oracle_move(self, case, obs):
@@ -771,7 +1095,7 @@ class Check(PropertyCheck):
             # repeated destinations); counted, not judged
             if not isinstance(o[0], dict):
                 self.stats['move_accepted_where_numpy_rejects'] = self.stats.get('move_accepted_where_numpy_rejects', 0) + 1
-            return None
+            return self.reds_only(f'MoveAxisOperator({s}, {d}) on {ins}', o)
         what = f'MoveAxisOperator({s}, {d}) on {ins}'
         msg = self.common(what, ins, exp, o)
         if msg:
@@ -786,7 +1110,9 @@ class Check(PropertyCheck):
         what = f'RavelOperator({first}, {last}) on {ins}'
         exp = [flatten_between(sh, first, last) for sh in ins]
         if any(e is None for e in exp) or any(0 in sh for sh in ins):
-            return None  # an axis out of range for some leaf / an empty axis: outside the property
+            # an axis out of range for some leaf / an empty axis: outside the property (but reduce() must not
+            # change what the composition with the transpose does)
+            return self.reds_only(what, obs)
         if 'reject' in exp:
             if not isinstance(obs, dict):
                 return f'{what}: accepted although the first axis lies after the last one for some leaf'
